@@ -130,6 +130,14 @@ Theorem C06_stored_peer_rows_hold : forall rows init ops,
 Proof. exact peer_stores_verified. Qed.
 Print Assumptions C06_stored_peer_rows_hold.
 
+(* (3''') the verification service is a FUNCTION of what is submitted: the verdict on a batch is that
+   of verify() on each of its rows, whatever was submitted before (so any memory of earlier verdicts in
+   the real service is a disagreement with the model, and an accepted tampered row an oracle failure) *)
+Theorem C06_service_stateless : forall (Hf : list byte -> list byte) history b,
+  run_C06_gen Hf (CService (history ++ [b])) = run_C06_gen Hf (CService history) ++ [zb (forallb (item_verdict Hf) b)].
+Proof. exact service_stateless. Qed.
+Print Assumptions C06_service_stateless.
+
 (* (4) every field of the six signed structures, the signature excepted, is part of the digest *)
 Theorem C06_all_fields_signed : all_fields_hashed = true.
 Proof. exact all_fields_hashed_ok. Qed.
